@@ -12,8 +12,10 @@ SPEC = {
              "mapping is brought to the state under test. Matrix: identity (no handshake / refused handshake / listen / target / "
              "unrelated client) x credential (mapping id, right secret, wrong secret, resume token, nothing, own other mapping's id, "
              "own other mapping's secret) x mapping state (active, revoked, expired, inactive, missing) x tunnel state (no bridge, "
-             "bridge waiting, bridge served, waiting on another node) = 700 cells, all on every run; plus random worlds (1-3 "
-             "mappings, shared and empty secrets, clients on both sides, malformed and empty payloads). Observed: the ack on the "
+             "bridge waiting, bridge served, waiting on another node, route to this node without bridge) = 875 cells, all on every run; plus random worlds (1-3 "
+             "mappings, shared and empty secrets, clients on both sides, malformed and empty payloads, mostly entitled requests with "
+             "at most one thing broken); one end-to-end case (mapping created by the real PortMappingService, listen client and "
+             "target client both admitted, bytes flow). Observed: the ack on the "
              "requesting connection, which connection the bridge holds as source/target, whether the other node received a "
              "TargetReady frame, whether bytes written by the other end became readable on the requester. "
              "non-trivial = every case (each is a full request); distinct = distinct case strings"),
